@@ -122,6 +122,12 @@ fn create_canon_stream_producer<'closure, 'name: 'closure>(
             0.into(),
         ));
 
+        #[cfg(aquavm_verif)]
+        crate::verif_hooks::emit(crate::verif_hooks::Event::CanonSnapshot {
+            name: stream_map_name.to_string(),
+            values: vec![value.get_result().to_string()],
+        });
+
         // This single value is a map of StreamMap unique keys to values.
         CanonStream::from_values(vec![value], peer_pk)
     })
